@@ -510,8 +510,19 @@ def c11_pairs(seed):
   return pairs
 
 
+C11_CIRCULAR_SHORT = """@Engine("sqlite");
+P(x) = x;
+Q(u, a: u) :- E(x, y), u == (P(y) + 1);
+T(Element([v, y, v], 0)) = z :- Q(z, a: x), u == {a: ((-1) * 2), b: [((-1) * y), 1]}, v == Element(u.b, 1), x in [z], Q(x, a: y);
+"""
+
+
 def c11_kf_pairs(seed):
-  """KF-C11-eq-after-expression witness: always exercised."""
+  """witnesses of the two C11 known findings: always exercised."""
+  if seed % 3 == 2:
+    long = C11_CIRCULAR_SHORT.replace(' == ', ' = ')
+    return [dict(a=Side(C11_CIRCULAR_SHORT, 'T', label='short'), b=Side(long, 'T', label='sugar_eq'),
+                 tables=['E'], K=2, strings_list=[], label='kf_witness/sugar_eq circular in')]
   x, v = Var('x'), Var('v')
   lhs = [Bin('+', x, Num(1)), Bin('+', Bin('+', x, x), Elem(ListE([x]), Num(0)))][seed % 2]
   a = Program([Rule('T', [x, v], body=Conj([gen.A('G', x), Cmp('==', lhs, v)]))], ext=gen.EXT)
